@@ -69,6 +69,7 @@ static void build_pieces(Ctx &c, Pieces &p, const std::vector<uint8_t> &flat, in
 }
 
 struct Expect {
+  std::vector<std::pair<bool, std::vector<uint8_t>>> all;  // every complete frame: well-formed?, reference message
   std::vector<std::vector<uint8_t>> msgs;  // messages of the leading well-formed frames
   bool then_malformed = false;             // a complete malformed frame follows them
   size_t delimiters = 0, pairs = 0, frames = 0;
@@ -82,6 +83,13 @@ static Expect ref_expect(int fr, const std::vector<uint8_t> &in) {
     if (in[i]) continue;
     ++e.delimiters;
     ++e.frames;
+    {
+      std::vector<uint8_t> m;
+      bool ok = true;
+      if (fr == FCommand) { m = {0x04, ' '}; m.insert(m.end(), in.begin() + s, in.begin() + i); }
+      else ok = ref::decode((ref::Dialect)fr, in.data() + s, i - s, m) == ref::WellFormed;
+      e.all.push_back({ok, m});
+    }
     if (!stop) {
       if (fr == FCommand) {
         std::vector<uint8_t> m{0x04, ' '};
@@ -123,7 +131,9 @@ static void drive(Ctx &c, int fr, const std::vector<uint8_t> &input, size_t pref
   size_t hw = prefix;  // high-water mark of consumed position on successful returns
   size_t delivered = 0, budget = 6 * total + 64, idle = 0;
   bool dead = false, missing_buffer = false, honest = true;
-  int last_rc = 99, codes_seen = 0;
+  int last_rc = 99, codes_seen = 0, first_error = 0;
+  size_t next_frame = 0;
+  bool honest_after_error = false;
   size_t safety_calls = 0;
   struct iovec v[8];
   while (budget--) {
@@ -165,7 +175,28 @@ static void drive(Ctx &c, int fr, const std::vector<uint8_t> &input, size_t pref
                  orig[i], p.at(i), rc);
     }
     if (op == 2) continue;
-    if (dead) { if (++safety_calls >= 3) break; continue; }
+    if (dead) {
+      // after an error nothing is demanded beyond safety, except that refused input is never turned into a message
+      // with invented bytes: a retry (production retries: the next dispatch calls mpt_queue_recv again) may only
+      // deliver the reference message of a well-formed frame that lies behind the refused one, in order
+      if (rc == 1 && op != 2 && honest_after_error) {
+        std::vector<uint8_t> got;
+        if (st.data.msg >= 0 && st.data.pos + (size_t)st.data.msg <= total) for (size_t i = 0; i < (size_t)st.data.msg; i++) got.push_back(p.at(st.data.pos + i));
+        bool found = false;
+        while (next_frame < e.all.size()) {
+          const auto &f = e.all[next_frame++];
+          if (f.first && f.second == got) { found = true; break; }
+        }
+        VP_CHECK(c, found, "message-after-error", "%s: after error %d the decoder delivers %zu bytes %s, which is no reference message of a later frame of this input", kName[fr],
+                 first_error, got.size(), hex(got.data(), got.size(), 24).c_str());
+        c.label("resync-after-error");
+      }
+      if (++safety_calls >= 3) break;
+      continue;
+    }
+    // "need more data" never leaves a message pending (mpt_queue_recv reports data.msg >= 0 as a message)
+    if (rc == 0)
+      VP_CHECK(c, st.data.msg < 0, "pending-message-without-delivery", "%s: decoder returns 0 (incomplete) but leaves a message of %zd bytes marked as pending", kName[fr], (ssize_t)st.data.msg);
     // ---- honesty
     if (rc == 1) {
       VP_CHECK(c, st.data.msg >= 0 && (size_t)st.data.msg <= st.data.len, "window-outside-consumed", "%s: message length %zd > decoded length %zu", kName[fr],
@@ -199,6 +230,9 @@ static void drive(Ctx &c, int fr, const std::vector<uint8_t> &input, size_t pref
     else if (rc == BadValue) c.label("rc:BadValue");
     else c.label("rc:other-error");
     dead = true;
+    first_error = rc;
+    next_frame = delivered + 1;  // frames behind the refused one
+    honest_after_error = honest;
   }
   // ---- completeness of honest delivery: all leading well-formed frames must have come out
   if (honest && !missing_buffer && !dead)
